@@ -4,10 +4,11 @@ SPECIFICATION MCSpec
 CONSTANTS
  Recorders = {1,2}
  Drainers = {4,5}
+ LockedDrain = TRUE
  Scope = "conc"
  MaxOps = 0
  RecLimit = 1
  DrainLimit = 2
  UpLimit = 1
-INVARIANTS TypeOK Conservation RenderFaithful NoLossSequential CounterMeaning HelpFirst RenderTwice LabelsOK
+INVARIANTS TypeOK Conservation RenderFaithful RenderBounds NoLossSequential CounterMeaning HelpFirst RenderTwice LabelsOK
 CHECK_DEADLOCK FALSE
